@@ -170,6 +170,7 @@ class MapExecutor(CanCustomizeBind, Executor):
         self._error_fn = kwargs.get("error_fn")
         self._metric_exec_total.inc()
         self._metric_exec_inprogress.inc()
+        self._shutdown.dec_when_dropped(self, self._metric_exec_inprogress)
 
     def shutdown(self, wait=True, **_kwargs):
         if self._shutdown():
